@@ -158,11 +158,11 @@ def run(R, tier):
         for res_state, label in ((fdai.mk_err(SymV("first-error", "first-error")), "Err"), (fdai.mk_ok(fdai.UNIT), "Ok")):
             for flags in ((False, False), (True, False), (False, True), (True, True)):
                 fmtcell = Cell(TOP, "fmt")
-                unit = AggV(ru_adt, {0: RefV(fmtcell, (), True), 1: res_state, 2: K(flags[0]), 3: K(flags[1])})
-                # field order from the ADT table
+                # the four bookkeeping states are taken from the library's own header/data calls (sa/rules/emit.py: unit_states)
+                from . import emit as E_
+                fi_, ri_, si_ = E_.unit_layout(u)
                 fields = [f["name"] for f in u.adts[ru_adt]["variants"][0]["fields"]]
-                vals = {"fmt": RefV(fmtcell, (), True), "result": res_state, "has_header": K(flags[0]), "has_data": K(flags[1])}
-                unit = AggV(ru_adt, {i: vals.get(n, TOP) for i, n in enumerate(fields)})
+                unit = E_.mk_unit(u, E_.unit_states(P)[flags], result=res_state, fmt=RefV(fmtcell, (), True))
                 ucell = Cell(unit, "unit")
                 if meth == "header" and flags[1]:
                     continue  # documented precondition: header before data (debug_assert)
@@ -176,7 +176,7 @@ def run(R, tier):
                     # locate the unit cell in the final state through the returned &mut Self
                     rv = r.retval
                     final = load(Loc(rv.cell, rv.path)) if isinstance(rv, RefV) else None
-                    fres = final.fields.get(fields.index("result")) if isinstance(final, AggV) else None
+                    fres = final.fields.get(ri_) if isinstance(final, AggV) else None
                     if label == "Err":
                         keep = isinstance(fres, EnumV) and fres.name == "Err" and isinstance(fres.fields.get(0), SymV) and fres.fields[0].id == "first-error"
                         R.check(not writes and keep, "R05.6", "ResponseUnit::%s[after-error,%s]" % (meth, flags), "after a failed write nothing more is written and the first error is kept", "after a failed write the unit must write nothing and keep its first error; writes=%s result=%r" % (writes, fres))
@@ -185,7 +185,7 @@ def run(R, tier):
     fb = u.body("scpi::parser::response::ResponseUnit::finish")
     S = sym.Sym(fb.mir)
     e = sym.norm(S.local(0))
-    R.check(e == ("field", ("arg", 1, "self"), "result"), "R05.6", "ResponseUnit::finish", "returns the latched result", "finish() must return self.result, returns %s" % sym.show(e))
+    R.check(e == ("field", ("arg", 1, "self"), fields[ri_]), "R05.6", "ResponseUnit::finish", "returns the latched result", "finish() must return self.result, returns %s" % sym.show(e))
 
     # ---- R05.7 forward-only stream ----------------------------------------------------------------------------------------
     allowed = ("core::iter::Peekable::peek", "<core::iter::Peekable<I> as core::iter::Iterator>::next", "core::iter::Peekable::next_if", "core::iter::Iterator::next")
